@@ -26,7 +26,7 @@ COMPONENTS = {"real": ["amaranth.hdl._ir (build_netlist, emit_rhs/emit_assign/em
               "stub": ["RTLIL interpreter dsim/rtlil_eval.py (there is no Yosys offline)", "PermSet scheduler seam",
                        "clock/reset driver"]}
 EXPECTED_PROBES = ("sched", "coincide", "srst", "arst", "submodules", "fsm", "part", "array", "reset_inserter", "enable_inserter",
-                   "domain_renamer", "memory_design", "compared_bits", "undefined_bits_skipped", "internal_signals")
+                   "domain_renamer", "memory_design", "library_design", "compared_bits", "undefined_bits_skipped", "internal_signals")
 OPTS = {"max_domains": 3, "max_modules": 4, "wrappers": True, "prints": False, "fsm": True, "max_stmts": 8, "depth": 2}
 CHUNK = 4
 
@@ -37,6 +37,14 @@ def gen_case_i(seed, tier, index):
     fl = stream(seed, "faults")
     sc = stream(seed, "sched")
     sched = {"mode": sc.choice(["seeded", "seeded", "reverse", "insertion"]), "seed": sc.randrange(1 << 32)}
+    if index % 8 == 5:
+        # library components (real FIFOs with their synchronisers and memories, CRC processors) under their own C12/C13/C16
+        # schedules: simulator vs emitted RTLIL
+        which = ["C12", "C13", "C16"][(index // 8) % 3]
+        from dsim import runner as _r
+        mod = _r.load(which)
+        c = _r.gen(mod, seed, tier, index)
+        return {"kind": "lib", "lib": which, "config": c["config"], "steps": c["steps"], "sched": c["sched"]}
     if index % 4 == 3:
         from props import c11
         c = c11.gen_case(seed, tier)
@@ -312,6 +320,122 @@ def run_memory(case, res, stats):
     return r
 
 
+def lib_adapter(which, config):
+    """-> (dut, domain specs, inputs {name: Signal}, outputs {name: Signal}, step translator)"""
+    from dsim.simdrv import DomainSpec
+    if which == "C12":
+        from props import c12
+        dut = c12.build(config)
+        doms = [DomainSpec("sync", edge=config["edge"])]
+        ins = {"w_en": dut.w_en, "w_data": dut.w_data, "r_en": dut.r_en}
+        outs = {"w_rdy": dut.w_rdy, "r_rdy": dut.r_rdy, "r_data": dut.r_data, "level": dut.level}
+
+        def tr(st):
+            return ("set", st["v"]) if st["k"] == "set" else ("drive", {"sync.clk": st["l"]})
+    elif which == "C13":
+        from props import c13
+        dut = c13.build(config)
+        doms = [DomainSpec("write", edge=config["w_edge"], reset_less=config["w_reset_less"]), DomainSpec("read")]
+        ins = {"w_en": dut.w_en, "w_data": dut.w_data, "r_en": dut.r_en}
+        outs = {"w_rdy": dut.w_rdy, "r_rdy": dut.r_rdy, "r_data": dut.r_data, "r_level": dut.r_level, "w_level": dut.w_level}
+
+        def tr(st):
+            return ("set", st["v"]) if st["k"] == "set" else ("drive", {k + ".clk": v for k, v in st["l"].items()})
+    else:
+        from props import c16
+        from amaranth.lib import crc as crclib
+        p = c16.params_of(config)
+        dut = crclib.Processor(crclib.Algorithm(**p)(config["data_width"]))
+        doms = [DomainSpec("sync", edge=config["edge"])]
+        ins = {"start": dut.start, "valid": dut.valid, "data": dut.data}
+        outs = {"crc": dut.crc, "match_detected": dut.match_detected}
+
+        def tr(st):
+            return ("set", st["v"]) if st["k"] == "set" else ("drive", {"sync.clk": st["l"]})
+    return dut, doms, ins, outs, tr
+
+
+def run_lib(case, res, stats):
+    from amaranth.back import rtlil
+    from dsim.simdrv import ManualRun
+    P, F = stats["probes"], stats["faults"]
+    P["library_design"] = P.get("library_design", 0) + 1
+    dut, doms, ins, outs, tr = lib_adapter(case["lib"], case["config"])
+    run = ManualRun(dut, doms, sched_mode=case["sched"]["mode"], sched_seed=case["sched"]["seed"])
+    top = run.top
+    ports = {"bus": (top.bus, None)}
+    for n, s in list(ins.items()) + list(outs.items()):
+        if len(s):
+            ports[n] = (s, None)
+    text = rtlil.convert(top, ports=ports)
+    try:
+        D = rtlil_eval.Design(text)
+    except (rtlil_eval.Unreadable, rtlil_eval.CombLoop) as e:
+        raise Violation(_classify(e), -1, {"msg": str(e)[:300], "lib": case["lib"]})
+    if D.ff_without_init:
+        raise Violation("register_initial_value_undefined", -1, {"wires": [list(x) for x in D.ff_without_init[:4]]})
+    dig = Digest()
+
+    def body(drv):
+        cur = {n: drv.get(s) & ((1 << len(s)) - 1) for n, s in ins.items()}
+        for n, v in cur.items():
+            if n in D.top_ports:
+                D.set_inputs({n: v})
+
+        def compare(idx):
+            obs = []
+            for n, s in outs.items():
+                if n not in D.top_ports:
+                    continue
+                a = drv.get(s) & ((1 << len(s)) - 1)
+                v, x, w = D.get(n)
+                if (a ^ v) & ~x & ((1 << w) - 1):
+                    raise Violation("rtlil_vs_simulator", idx, {"lib": case["lib"], "port": n, "simulator": a, "rtlil": v,
+                                                                "rtlil_undefined_mask": x})
+                P["compared_bits"] += w - bin(x).count("1")
+                P["undefined_bits_skipped"] += bin(x).count("1")
+                obs.append((a, x))
+            return obs
+
+        compare(-1)
+        for idx, st in enumerate(case["steps"]):
+            drv.begin_step(idx)
+            stats["steps"] += 1
+            kind, payload = tr(st)
+            try:
+                if kind == "set":
+                    for n, v in payload.items():
+                        v &= (1 << len(ins[n])) - 1
+                        if cur[n] != v:
+                            cur[n] = v
+                            drv.set(ins[n], v)
+                            if n in D.top_ports:
+                                D.set_inputs({n: v})
+                else:
+                    changes = {ln: lvl for ln, lvl in payload.items() if drv.level(ln) != lvl}
+                    if changes:
+                        stats["edges"] += len(changes)
+                        if len(changes) >= 2:
+                            F["coincide"] += 1
+                        drv.drive(changes)
+                        v = 0
+                        for b, ln in enumerate(top.lines):
+                            if drv.level(ln):
+                                v |= 1 << b
+                        D.set_inputs({"bus": v})
+            except (rtlil_eval.Unreadable, rtlil_eval.CombLoop) as e:
+                raise Violation(_classify(e), idx, {"msg": str(e)[:300], "lib": case["lib"]})
+            dig.add((st["k"], compare(idx)))
+    run.run(body)
+    stats["decisions"] = run.decisions
+
+    class R:
+        pass
+    r = R()
+    r.dig = dig
+    return r
+
+
 def run_case(case):
     res = Result()
     stats = {"steps": 0, "edges": 0, "faults": {"sched": 0, "coincide": 0, "inactive": 0, "srst": 0, "arst": 0, "gate": 0, "glitch-in": 0},
@@ -319,7 +443,9 @@ def run_case(case):
     holder = {}
 
     def go():
-        if case.get("kind") == "memory":
+        if case.get("kind") == "lib":
+            holder["pr"] = run_lib(case, res, stats)
+        elif case.get("kind") == "memory":
             # row accesses are dropped: keep the two sides in step
             c = dict(case, steps=[s for s in case["steps"] if s["k"] in ("set", "ev", "rst")])
             holder["pr"] = run_memory(c, res, stats)
@@ -335,7 +461,7 @@ def run_case(case):
 
 
 def signature(case, violation):
-    sig = {"oracle": violation["oracle"], "kind": case.get("kind", "prog")}
+    sig = {"oracle": violation["oracle"], "kind": case.get("kind", "prog"), "lib": case.get("lib")}
     if violation["oracle"] == "exception":
         sig["exc"] = violation["detail"].get("type")
         sig["where"] = violation["detail"].get("where")
@@ -343,6 +469,13 @@ def signature(case, violation):
 
 
 def simplify(case):
+    if case.get("kind") == "lib":
+        from dsim import runner as _r
+        sm = getattr(_r.load(case["lib"]), "simplify", None)
+        if sm:
+            for c in sm({"config": case["config"], "steps": case["steps"], "sched": case["sched"]}):
+                yield dict(case, config=c["config"], steps=c["steps"])
+        return
     if case.get("kind") == "memory":
         from props import c11
         yield from c11.simplify(case)
